@@ -147,7 +147,10 @@ func StartKeygen(group curve.Curve, receiver bool, selfID, otherID party.ID, sec
 			return nil, fmt.Errorf("keygen.StartKeygen: %w", err)
 		}
 
+		// the sampled share must not be written back into the variable the closure captured: a second session started
+		// with the same function would take it for the share of an existing key and run a refresh without a public key
 		refresh := true
+		secretShare := secretShare
 		if secretShare == nil && public == nil {
 			secretShare = sample.Scalar(rand.Reader, group)
 			refresh = false
